@@ -12,11 +12,16 @@ HARNESSES = [
     dict(name="inode_extra", src="inode_extra.c", funcs=["set_inode_extra", "clamped_time"],
          configs=[{"IN_RANGE": None}, {}], unwind=4, unwindset=["main.%d:129" % i for i in range(8)],
          backends=["default", "kissat"], bound="x"),
-    dict(name="mknod", src="mknod.c", funcs=["ext2_file_type", "do_mknod_internal"],
-         configs=[{"KERNEL": 2}, {"KERNEL": 1}], unwind=4, unwindset=["main.%d:16" % i for i in range(8)],
+    dict(name="file_type", src="mknod.c", funcs=["ext2_file_type"], configs=[{"KERNEL": 1}], unwind=4,
+         backends=["default", "kissat"], bound="x"),
+    dict(name="mknod", src="mknod.c", funcs=["do_mknod_internal"],
+         configs=[{"KERNEL": 2}], unwind=4, unwindset=["main.%d:16" % i for i in range(8)],
          backends=["default", "kissat"], bound="x"),
     dict(name="copy_chunk", src="copy_chunk.c", funcs=["copy_file_chunk"],
-         configs=[{"ALIGNED": None}, {}], unwind=6, unwindset=["main.%d:14" % i for i in range(8)] + ["pread64.0:13", "pread64.1:13", "ext2fs_file_write.0:13", "ext2fs_file_write.1:13"],
+         configs=[{"START": 0}, {"START": 4}, {"START": 1}, {"START": 0, "FAULTS": 1}, {"START": 0, "FAULTS": 2}, {"START": 0, "FAULTS": 3}, {"START": 0, "FAULTS": 4}, {"START": 0, "PARTIAL": None}], unwind=6, unwindset=["main.%d:14" % i for i in range(8)] + ["pread64.0:13", "pread64.1:13", "ext2fs_file_write.0:13", "ext2fs_file_write.1:13"],
+         backends=["default", "kissat"], bound="x"),
+    dict(name="fix_perms", src="fix_perms.c", funcs=["fix_perms", "mode_xlate"],
+         unwind=4, unwindset=["main.0:129", "main.1:129", "main.2:129", "mode_xlate.0:11"],
          backends=["default", "kissat"], bound="x"),
     dict(name="xtime", src="xtime.c", funcs=["__encode_extra_time"],
          configs=xt(), unwind=4, unwindset=MU,
